@@ -387,9 +387,9 @@ Proof.
   assert (Hwf : wf_specb {| h_vers := v; h_random := f_random fr; h_sid := f_sid fr; h_suites := su; h_comp := [0] |} es0 = true).
   { unfold wf_specb, hdr_wfb. cbn [h_vers h_random h_sid h_suites h_comp nonempty].
     rewrite !andb_true_iff. repeat split.
-    - unfold hello_vers in Eh. destruct (mx <? mn); [discriminate|]. inversion Eh. unfold VersionTLS12. destruct (771 <? mx) eqn:E; lia.
+    - unfold hello_vers in Eh. destruct (mx <? mn); [discriminate|]. inversion Eh. unfold VersionTLS12. destruct (771 <? mx) eqn:E; clear - E; lia.
     - exact Er.
-    - apply N.eqb_eq in Ei. unfold len. fold (blen (f_sid fr)). lia.
+    - apply N.eqb_eq in Ei. unfold len. fold (blen (f_sid fr)). clear - Ei. lia.
     - rewrite (nonempty_length _ _ Hsl). exact P1.
     - exact (Hsb P2).
     - apply forallb_forall. intros e He. destruct (Hgood e He) as (A & B & _). rewrite A, B. reflexivity.
@@ -398,7 +398,7 @@ Proof.
       + apply nodupb_spec. exact P6.
       + intros s Hs. unfold nong in Hs. apply filter_In in Hs. destruct Hs as [Hs Hng]. rewrite forallb_forall in P7. specialize (P7 s Hs).
         destruct (is_sgrease s); [discriminate|]. cbn [orb] in P7. apply negb_true_iff in P7. exact P7.
-      + unfold ngrease. lia.
+      + unfold ngrease. clear - P5. lia.
     - rewrite (psk_lastb_ext (map ext_id es0) (map pid (sp_exts sp))); [exact P8|].
       rewrite !map_map.
       transitivity (map is_psk_ext es0).
@@ -406,9 +406,9 @@ Proof.
       + rewrite L4. apply map_ext. intros s. unfold pid. destruct (is_spsk s); reflexivity. }
   split; [exact Hwf|]. split; [|split; [exact Hty | exact Hpo]].
   apply fits_bound; [exact Hwf | exact Hpo | | | ].
-  - cbn [h_suites]. unfold len. fold (blen su). rewrite (blen_length _ _ Hsl). lia.
-  - cbn [h_comp]. unfold len. cbn. lia.
-  - lia.
+  - cbn [h_suites]. unfold len. fold (blen su). rewrite (blen_length _ _ Hsl). clear - P3. lia.
+  - cbn [h_comp]. unfold len. cbn. clear. lia.
+  - clear - L2 P10. lia.
 Qed.
 
 (* ... hence the hello can be marshalled and is a valid ClientHello: no premise on the model's output left *)
